@@ -417,14 +417,27 @@ class Registry:
                 elems.append(n)
         flat(node)
         for e in elems:
-            if isinstance(e, ast.Lambda) and isinstance(e.body, ast.UnaryOp) \
-                    and isinstance(e.body.op, ast.Not) and isinstance(
-                        e.body.operand, ast.Call) and isinstance(
-                        e.body.operand.func, ast.Name) and \
-                    e.body.operand.func.id == 'isinstance' and \
-                    len(e.body.operand.args) == 2:
+            body = None
+            bmod = module
+            if isinstance(e, ast.Lambda):
+                body = e.body
+            elif isinstance(e, (ast.Name, ast.Attribute)):
+                # a named one-expression predicate
+                dd = self.repo.resolve(module, e)
+                tg = self.repo.lookup(dd) if dd else None
+                if isinstance(tg, model.FuncInfo):
+                    b = model.strip_docstring(tg.node.body)
+                    if len(b) == 1 and isinstance(b[0], ast.Return):
+                        body = b[0].value
+                        bmod = tg.module
+            if body is not None and isinstance(body, ast.UnaryOp) \
+                    and isinstance(body.op, ast.Not) and isinstance(
+                        body.operand, ast.Call) and isinstance(
+                        body.operand.func, ast.Name) and \
+                    body.operand.func.id == 'isinstance' and \
+                    len(body.operand.args) == 2:
                 facts['excluded'].extend(self.python_type_list(
-                    module, e.body.operand.args[1]))
+                    bmod, body.operand.args[1]))
             else:
                 d = self.repo.resolve(module, e)
                 if d == 'yaql.language.utils.is_iterator':
@@ -469,6 +482,27 @@ class Registry:
         innermost first (the order in which they are applied)."""
         out = []
         for dec in reversed(fi.node.decorator_list):
+            if isinstance(dec, ast.Name):
+                # a decorator object kept in a module-level name:
+                # `_left = specs.parameter('left', ...)` ... `@_left`
+                dd = self.repo.resolve(fi.module, dec)
+                tg = self.repo.lookup(dd) if dd else None
+                if isinstance(tg, tuple) and tg[0] == 'const' and \
+                        isinstance(tg[2], ast.Call):
+                    dec = tg[2]
+                elif isinstance(tg, model.FuncInfo):
+                    # a decorator *function* that applies specs decorators:
+                    # def both(func): return specs.a(..)(specs.b(..)(func))
+                    inner = self._composed_decorators(tg)
+                    if inner is not None:
+                        for d2 in inner:      # innermost first
+                            t2 = d2.func if isinstance(d2, ast.Call) else d2
+                            k2 = self.repo.resolve(tg.module, t2)
+                            if k2 and k2.startswith(SPECS + '.'):
+                                out.append((k2[len(SPECS) + 1:], d2))
+                            else:
+                                out.append(('?', d2))
+                        continue
             target = dec.func if isinstance(dec, ast.Call) else dec
             d = self.repo.resolve(fi.module, target)
             if d and d.startswith(SPECS + '.'):
@@ -479,6 +513,41 @@ class Registry:
             else:
                 out.append(('?', dec))
         return out
+
+    def _composed_decorators(self, h):
+        """For `def deco(func): a = specs.x(..); return a(specs.y(..)(func))`
+        the decorator expressions in application order (innermost first);
+        None if the helper has another shape."""
+        ps = h.params()
+        if len(ps) != 1:
+            return None
+        binds = {}
+        rets = []
+        for st in model.strip_docstring(h.node.body):
+            if isinstance(st, ast.Assign) and len(st.targets) == 1 and \
+                    isinstance(st.targets[0], ast.Name):
+                binds[st.targets[0].id] = st.value
+            elif isinstance(st, ast.Return):
+                rets.append(st.value)
+            else:
+                return None
+        if len(rets) != 1:
+            return None
+        chain = []
+        e = rets[0]
+        while isinstance(e, ast.Call) and len(e.args) == 1 and \
+                not e.keywords:
+            f = e.func
+            if isinstance(f, ast.Name) and f.id in binds:
+                f = binds[f.id]
+            chain.append(f)
+            e = e.args[0]
+            if isinstance(e, ast.Name) and e.id in binds and not (
+                    e.id == ps[0]):
+                e = binds[e.id]
+        if not (isinstance(e, ast.Name) and e.id == ps[0]):
+            return None
+        return list(reversed(chain))
 
     def declaration(self, fi):
         if fi.key in self.decl:
@@ -634,7 +703,29 @@ class Registry:
                     ctx = 'legacy' if short == 'legacy' else (
                         'fallback' if q == 'register_fallbacks' else
                         'default')
-                    self._scan_register(fi, ctx)
+                    # the body, and module-level helpers it hands the
+                    # context to
+                    todo, seen = [(fi, None)], set()
+                    while todo:
+                        f, cond = todo.pop()
+                        if f.key in seen:
+                            continue
+                        seen.add(f.key)
+                        self._scan_register(f, ctx, outer_condition=cond)
+                        ctxnames = {p for p in f.params()
+                                    if 'context' in p or p == 'ctx'}
+                        for c in model.calls_in(f.node, shallow=True):
+                            if isinstance(c.func, ast.Name) and any(
+                                    isinstance(a, ast.Name) and
+                                    a.id in ctxnames for a in c.args):
+                                h = mod.functions.get(c.func.id)
+                                if h is not None and h.parent_func is None \
+                                        and not h.name.startswith(
+                                            'register'):
+                                    hc = self._condition(c, f.node)
+                                    todo.append((h, ' and '.join(
+                                        x for x in (cond, hc) if x) or
+                                        None))
         # the finaliser pair registered by yaql._setup_context
         init = repo.module('yaql')
         sc = init.functions.get('_setup_context')
@@ -654,7 +745,7 @@ class Registry:
                                 h.name not in ('create_context',):
                             todo.append(h)
 
-    def _scan_register(self, fi, ctx):
+    def _scan_register(self, fi, ctx, outer_condition=None):
         mod = fi.module
         # local tuple/list bindings for `for func in functions:` loops
         seqs = {}
@@ -670,6 +761,8 @@ class Registry:
             if not call.args:
                 continue
             cond = self._condition(call, fi.node)
+            if outer_condition:
+                cond = ' and '.join(x for x in (outer_condition, cond) if x)
             kw = {k.arg: k.value for k in call.keywords}
             reg_name = _const(kw.get('name'), None) if 'name' in kw else (
                 _const(call.args[1], None) if len(call.args) > 1 else None)
@@ -693,17 +786,78 @@ class Registry:
                 self.overloads.append(ov)
 
     def _condition(self, node, top):
+        """The conditions under which `node` runs inside `top` (if/else
+        nesting and early returns alike), as text."""
+        from sa import norm
         conds = []
-        n = node
-        while n is not None and n is not top:
-            p = getattr(n, '_parent', None)
-            if isinstance(p, ast.If):
-                if any(n is s for s in p.body):
-                    conds.append(model.norm(p.test))
-                elif any(n is s for s in p.orelse):
-                    conds.append('not (%s)' % model.norm(p.test))
-            n = p
+        for e, pol in norm.guards(node, top, substitute=False):
+            t = model.norm(e)
+            conds.append(t if pol else 'not (%s)' % t)
         return ' and '.join(reversed(conds))
+
+    def _seq_elements(self, regfi, it, seqs, at, depth=0):
+        """The element expressions a registration loop ranges over, or
+        None if they cannot be listed."""
+        mod = regfi.module
+        if depth > 6:
+            return None
+        if isinstance(it, (ast.Tuple, ast.List)):
+            return list(it.elts)
+        if isinstance(it, ast.BinOp) and isinstance(it.op, ast.Add):
+            a = self._seq_elements(regfi, it.left, seqs, at, depth + 1)
+            b = self._seq_elements(regfi, it.right, seqs, at, depth + 1)
+            return None if a is None or b is None else a + b
+        if isinstance(it, ast.Call) and isinstance(it.func, ast.Name) and \
+                it.func.id in ('tuple', 'list', 'reversed', 'sorted') and \
+                len(it.args) == 1 and it.func.id in ('tuple', 'list'):
+            return self._seq_elements(regfi, it.args[0], seqs, at, depth + 1)
+        if isinstance(it, ast.Call) and model.norm(it.func) in (
+                'itertools.chain',):
+            out = []
+            for a in it.args:
+                e = self._seq_elements(regfi, a, seqs, at, depth + 1)
+                if e is None:
+                    return None
+                out += e
+            return out
+        if isinstance(it, ast.Call) and isinstance(
+                it.func, ast.Name) and not it.args and \
+                it.func.id in mod.functions:
+            h = mod.functions[it.func.id]
+            rets = [r.value for r in model.walk_shallow(h.node)
+                    if isinstance(r, ast.Return)]
+            if len(rets) == 1:
+                return self._seq_elements(h, rets[0], {}, rets[0],
+                                          depth + 1)
+            return None
+        if isinstance(it, ast.Name):
+            if it.id in seqs:
+                return list(seqs[it.id])
+            # the variable of an enclosing loop: one level of flattening
+            outer = model.enclosing(at, ast.For)
+            while outer is not None:
+                if isinstance(outer.target, ast.Name) and \
+                        outer.target.id == it.id:
+                    groups = self._seq_elements(regfi, outer.iter, seqs,
+                                                outer, depth + 1)
+                    if groups is None:
+                        return None
+                    out = []
+                    for g in groups:
+                        e = self._seq_elements(regfi, g, seqs, outer,
+                                               depth + 1)
+                        if e is None:
+                            return None
+                        out += e
+                    return out
+                outer = model.enclosing(outer, ast.For)
+            dd = self.repo.resolve(mod, it)
+            tg = self.repo.lookup(dd) if dd else None
+            if isinstance(tg, tuple) and tg[0] == 'const':
+                sub = tg[2]
+                # a module-level tuple of tuples is flattened by the caller
+                return self._seq_elements(regfi, sub, seqs, at, depth + 1)
+        return None
 
     def _payloads(self, regfi, arg, seqs):
         mod = regfi.module
@@ -715,18 +869,13 @@ class Registry:
             nested = regfi.qualname + '.' + arg.id
             if nested in mod.functions:
                 return [mod.functions[nested]]
-            # loop variable over a tuple literal
-            p = arg
+            # loop variable over a (possibly nested / named) sequence of
+            # module functions
             loop = model.enclosing(arg, ast.For)
             while loop is not None:
                 if isinstance(loop.target, ast.Name) and \
                         loop.target.id == arg.id:
-                    it = loop.iter
-                    elts = None
-                    if isinstance(it, (ast.Tuple, ast.List)):
-                        elts = it.elts
-                    elif isinstance(it, ast.Name) and it.id in seqs:
-                        elts = seqs[it.id]
+                    elts = self._seq_elements(regfi, loop.iter, seqs, loop)
                     if elts is None:
                         return None
                     out = []
